@@ -273,7 +273,9 @@ ViolC05(g, prev, r, g2) ==
   \cup (IF Len(r.out) > 24 + 2 * Len(prev.obs.stored) THEN {"C05a-event-list-bound"} ELSE {})
   \cup (IF Op(r) = "recv" /\ r.call.flag /\ ~r.panic       \* flag = this call completed a frame
            /\ Recvs(r.out) = <<>> /\ ~HasErr(r.out)
-           /\ ~(CP(r).kind = "publish" /\ CP(r).qos = 2 /\ CP(r).pid \in g.handled)     \* suppressed duplicate
+           \* a suppressed duplicate is excused - on an established connection only if it was ANSWERED (PUBREC)
+           /\ ~(CP(r).kind = "publish" /\ CP(r).qos = 2 /\ CP(r).pid \in g.handled
+                 /\ (g.conn # "connected" \/ SendsK(r.out, {"pubrec"}) # <<>>))
         THEN {"C05b-frame-not-accounted"} ELSE {})
   \cup (IF IsSend(r, {"connect"}) /\ g.conn = "disc" /\ ~g.tr /\ g.everClosed /\ ~r.panic
            /\ g.ver = CP(r).ver /\ g.role # "server"
@@ -713,6 +715,8 @@ ViolC16(g, prev, r, g2) ==
   \cup (IF ResumeStep(r) /\ [i \in DOMAIN res |-> res[i].pkt] # [i \in DOMAIN resF |-> resF[i].pkt] THEN {"C16-retransmission-differs"} ELSE {})
   \cup (IF r.obs.stored # r.obsF.stored THEN {"C16-store-differs"} ELSE {})
   \cup (IF SeqToSet(r.obs.qos2) # SeqToSet(r.obsF.qos2) THEN {"C16-qos2-handled-differs"} ELSE {})
+  \* ... and both keep suppressing what was notified before the crash (the copy would lose it in exactly the same way)
+  \cup (IF SeqToSet(r.obsF.qos2) # g2.handled THEN {"C16-handled-set-lost"} ELSE {})
   \cup (IF g2.conn = "connected" /\ g2.peerRM > 0 /\ r.obs.vacancy # r.obsF.vacancy THEN {"C16-vacancy-differs"} ELSE {})
   \cup (IF ~SameEvents(SelectSeq(r.out, LAMBDA e : e.ev \in {"send", "recv", "error", "released", "close"}),
                        SelectSeq(r.outF, LAMBDA e : e.ev \in {"send", "recv", "error", "released", "close"}))
